@@ -115,6 +115,7 @@ var (
 		"tx_type",
 		"tx_max_priority_fee_per_gas",
 		"tx_max_fee_per_gas",
+		"tx_gas_price",
 	}
 	receipt = []string{
 		"block_hash",
@@ -127,6 +128,7 @@ var (
 		"tx_status",
 		"tx_gas_used",
 		"tx_contract_address",
+		"tx_effective_gas_price",
 		"log_addr",
 		"log_idx",
 	}
@@ -143,5 +145,6 @@ var (
 		"trace_action_from",
 		"trace_action_to",
 		"trace_action_value",
+		"trace_action_idx",
 	}
 )
